@@ -21,6 +21,9 @@ func genC04(t *rapid.T) c04Case {
 	if c.Cfg.Algo == "gradient2" && rapid.IntRange(0, 9).Draw(t, "lw0") == 0 {
 		c.Cfg.LongWindow = 0
 	}
+	if c.Cfg.Algo == "vegas" {
+		c.Cfg.NoLoad = rapid.SampledFrom([]string{"", "", "", "single", "expavg"}).Draw(t, "noload")
+	}
 	c.Samples = genSamples(t, c.Cfg, 400)
 	return c
 }
